@@ -117,7 +117,9 @@ Fixpoint apply_loop (segs : list seg) (expected offset : N) (cur : option walfil
         let done' := flush cur done in                           (* applyLastWalFile() *)
         if negb (sg_idx s =? expected) then inl ErrIndex         (* seg.Index != expectedIndex *)
         else apply_loop tl (expected + 1) (0 + sg_size s) (Some (sg_idx s, [s])) done'
-      else if negb (sg_off s =? offset) then inl ErrSegment      (* seg.Offset != offset *)
+      else if negb (sg_idx s + 1 =? expected) || negb (sg_off s =? offset)
+           then inl ErrSegment      (* seg.Index != expectedIndex-1 || seg.Offset != offset
+                                       (over Go's signed ints, idx = expected-1 iff idx+1 = expected) *)
       else
         match cur with
         | None => inl ErrWrite                                   (* io.Copy into a nil *os.File *)
